@@ -5,7 +5,7 @@ from __future__ import annotations
 import random as pyrandom
 import traceback
 
-from gev import core, grammars, stream, workload
+from gev import core, grammars, refmodel, stream, workload
 
 PROPERTY = "C10"
 LEVEL = "fault_enumeration"
@@ -24,7 +24,7 @@ PLAN = {
     "thorough": {"shards": 16, "shard_timeout": 3600, "case_timeout": 40, "grammars": 12000, "max_case_timeouts": 160},
 }
 THRESHOLDS = {
-    "quick": {"api_calls_fingerprinted": 5000, "backtracking_events": 500, "failing_operations": 100, "infeasible_limit_probes": 50, "searches": 30, "repr:tree": 500, "repr:ge": 200, "repr:sge": 200, "repr:dsge": 200, "repr:stack": 50, "grammars_with_unproductive_part": 40},
+    "quick": {"api_calls_fingerprinted": 5000, "echo_comparisons": 1500, "backtracking_events": 500, "failing_operations": 100, "infeasible_limit_probes": 50, "searches": 30, "repr:tree": 500, "repr:ge": 200, "repr:sge": 200, "repr:dsge": 200, "repr:stack": 50, "grammars_with_unproductive_part": 40},
     "thorough": {"api_calls_fingerprinted": 100000, "backtracking_events": 10000, "failing_operations": 2000},
 }
 
@@ -280,6 +280,9 @@ def run_case(case, rec):
             sev = stream.run_search(c, rep, case["search"], case["seed"], lambda p: None, budget=30, pop=6)
             rec.count("searches")
             check(f"search-{case['search']}", sev is not None)
+        if case["kind"] != "faulty":  # (the fault-injecting metahandler follows a global script: two grammars would see two scripts)
+            echo(g, built, case, rec, wit, md)
+            check("echo", False)
         back = (grammars_infeasible_hits() - infeasible0) + (FAULTS["raised"] - faults0)
         rec.count("backtracking_events", back)
         if back:
@@ -287,6 +290,43 @@ def run_case(case, rec):
             rec.sample({"grammar": name, "repr": case["repr"], "decider": case["decider"], "backtracking_events": back, "ops": sorted(state["ops"]), "api_calls": sess.n})
     finally:
         built.dispose()
+
+
+def echo(g_used, built, case, rec, wit, md):
+    """'The set of programs creatable from a grammar neither shrinks nor grows over the lifetime of a process': after
+    the session the USED grammar object must behave exactly like a freshly extracted one - same seed, same creations -
+    whatever the library keeps on it besides the documented tables."""
+    from geneticengine.grammar.grammar import extract_grammar
+
+    try:
+        g_new = extract_grammar(built.classes, built.start)
+    except BaseException:  # noqa
+        return
+    model = refmodel.Model(built.classes, built.start)
+    for rk, dk in (("tree", "maxdepth"), ("tree", "pigrow"), ("ge", "maxdepth"), ("dsge", "own")):
+        for extra in (0, 2):
+            seqs = []
+            for gg in (g_used, g_new):
+                src = workload.native(4242 + extra)
+                out = []
+                try:
+                    rep = workload.make_repr(rk, gg, dk, md + extra, src, gene_length=64)
+                    for _ in range(10):
+                        try:
+                            out.append(model.canon(rep.genotype_to_phenotype(rep.create_genotype(src))))
+                        except core.CaseTimeout:
+                            raise
+                        except BaseException as e:  # noqa
+                            out.append("!" + type(e).__name__)
+                except core.CaseTimeout:
+                    raise
+                except BaseException as e:  # noqa
+                    out.append("!!" + type(e).__name__)
+                seqs.append(out)
+            rec.count("echo_comparisons")
+            if seqs[0] != seqs[1]:
+                k = next((i for i, (a, b) in enumerate(zip(seqs[0], seqs[1])) if a != b), 0)
+                rec.violation(f"used-grammar-creates-differently-from-a-fresh-extraction:{rk}", dict(wit, echo_decider=dk, limit=md + extra, creation=k, used=core.short(seqs[0][k], 200), fresh=core.short(seqs[1][k], 200)))
 
 
 def grammars_infeasible_hits():
